@@ -35,9 +35,9 @@ LEAN_MODULES = {
     "C06": ["TFV.Properties.BinOps", "TFV.Properties.Runs"],
     "C07": ["TFV.Properties.DE", "TFV.Properties.Runs", "TFV.Properties.Src.BoundsControl"],
     "C08": ["TFV.Properties.Tree", "TFV.Properties.TreeCR", "TFV.Properties.Runs"],
-    "C09": ["TFV.Properties.Tree", "TFV.Properties.TreeCR", "TFV.Properties.Src.TreeIdx"],
+    "C09": ["TFV.Properties.Tree", "TFV.Properties.TreeCR", "TFV.Properties.Src.TreeIdx", "TFV.Properties.Src.CommonRegion"],
     "C10": ["TFV.Properties.Gray"],
-    "C11": ["TFV.Properties.Select", "TFV.Properties.Src.Bsearch"],
+    "C11": ["TFV.Properties.Select", "TFV.Properties.Src.Bsearch", "TFV.Properties.Src.Tournament"],
     "C12": ["TFV.Properties.Net"],
     "C13": ["TFV.Properties.Net", "TFV.Properties.Gray"],
     "C14": ["TFV.Properties.SelfConf"],
@@ -56,8 +56,8 @@ SRC_KERNELS = {
     "C02": ["TheFittest_replace", "TheFittest_update"],
     "C03": ["TheFittest_replace", "TheFittest_update", "termination_check", "get_remains_calls"],
     "C07": ["bounds_control"],
-    "C09": ["find_end_subtree_from_i", "find_id_args_from_i", "find_first_difference_between_two"],
-    "C11": ["binary_search_interval", "check_for_value", "argsort_k"],
+    "C09": ["find_end_subtree_from_i", "find_id_args_from_i", "find_first_difference_between_two", "common_region_two_trees"],
+    "C11": ["binary_search_interval", "check_for_value", "argsort_k", "tournament_selection"],
     "C16": ["get_n_jobs"],
 }
 
